@@ -86,7 +86,7 @@ class C05(PropCheck):
         return rc != 0 or core.first_diff(model, impl) is not None
 
     def correspond(self, tier, seed, rng):
-        n_hist, length = (200, 300) if tier == "quick" else (3000, 1500)
+        n_hist, length = (200, 300) if tier == "quick" else (12000, 1500)
         corpus = []
         cdir = os.path.join(core.VERIF, "corpus", "C05")
         if os.path.isdir(cdir):
